@@ -1323,3 +1323,156 @@ func init() {
 	registry["C15"].Meta.Rules["C15.12"] = "the heap returns what was stored whatever it is: on the read path of the writable heap (GetObject, getObject*) no branch condition reads a byte of a block's Objects or of the buffer copied from it - a content test (all zero means deleted) makes a legitimately stored value unreadable"
 	registry["C15"].Rules = append(registry["C15"].Rules, func(c *Ctx, r *Result) { heapContentIndependence(c, r, "C15.12") })
 }
+
+// ---- every creation call validates its path the same way (C03.14) ----
+//
+// parsePath splits a path at its last slash and hands the last component to the parent's name heap. An empty component ("//", or
+// "/" for a dataset) is stored as an empty name whose heap offset the next name reuses: the reopened group lists that name twice.
+// The validators that stand before parsePath are siblings: what one of them rejects (empty path, no leading slash, the root
+// itself, consecutive slashes) all of them reject, and every exported function that hands a parameter to parsePath runs one first.
+func pathValidatorKinds(fn *ssa.Function) map[string]bool {
+	out := map[string]bool{}
+	if fn == nil || len(fn.Params) != 1 {
+		return out
+	}
+	p := ssa.Value(fn.Params[0])
+	strConst := func(v ssa.Value) (string, bool) {
+		k, ok := v.(*ssa.Const)
+		if !ok || k.Value == nil || k.Value.Kind() != constant.String {
+			return "", false
+		}
+		return constant.StringVal(k.Value), true
+	}
+	instrs(fn, func(in ssa.Instruction) {
+		switch x := in.(type) {
+		case *ssa.BinOp:
+			if x.Op != token.EQL && x.Op != token.NEQ {
+				return
+			}
+			other := x.Y
+			if x.Y == p {
+				other = x.X
+			} else if x.X != p {
+				// p[0] != '/'
+				isFirst := false
+				switch idx := stripConv(x.X).(type) {
+				case *ssa.Lookup:
+					isFirst = idx.X == p
+				case *ssa.Index:
+					isFirst = idx.X == p
+				}
+				if k, okk := constInt(x.Y); isFirst && okk && k == '/' {
+					out["leading-slash"] = true
+				}
+				return
+			}
+			if s, ok := strConst(other); ok {
+				switch s {
+				case "":
+					out["empty"] = true
+				case "/":
+					out["root"] = true
+				}
+			}
+		case *ssa.Call:
+			f := x.Call.StaticCallee()
+			if f == nil || f.Pkg == nil || f.Pkg.Pkg.Path() != "strings" || len(x.Call.Args) != 2 || x.Call.Args[0] != p {
+				return
+			}
+			s, ok := strConst(x.Call.Args[1])
+			if !ok {
+				return
+			}
+			switch {
+			case f.Name() == "HasPrefix" && s == "/":
+				out["leading-slash"] = true
+			case f.Name() == "Contains" && s == "//":
+				out["consecutive-slashes"] = true
+			}
+		}
+	})
+	return out
+}
+
+func pathValidationRule(c *Ctx, r *Result, rule string) {
+	parse := c.FnOpt("hdf5.parsePath")
+	if parse == nil {
+		r.Shortfall(c, rule, rule+": hdf5.parsePath not found")
+		return
+	}
+	validators := map[*ssa.Function]bool{}
+	type entry struct {
+		fn   *ssa.Function
+		site ssa.Instruction
+		ok   bool
+	}
+	var entries []entry
+	for _, fn := range c.LibFuncs() {
+		if shortPkg(fnPkgPath(fn)) != "hdf5" {
+			continue
+		}
+		for _, site := range callsIn(fn) {
+			if site.Common().StaticCallee() != parse {
+				continue
+			}
+			param, isP := site.Common().Args[0].(*ssa.Parameter)
+			if !isP {
+				continue
+			}
+			in := site.(ssa.Instruction)
+			validated := mustPrecede(in, func(x ssa.Instruction) bool {
+				call, ok := x.(*ssa.Call)
+				if !ok {
+					return false
+				}
+				g := call.Call.StaticCallee()
+				if g == nil || !strings.HasPrefix(g.Name(), "validate") || len(call.Call.Args) != 1 || call.Call.Args[0] != ssa.Value(param) {
+					return false
+				}
+				validators[g] = true
+				return true
+			})
+			entries = append(entries, entry{fn, in, validated})
+		}
+	}
+	all := map[string]bool{}
+	kinds := map[*ssa.Function]map[string]bool{}
+	for v := range validators {
+		kinds[v] = pathValidatorKinds(v)
+		for k := range kinds[v] {
+			all[k] = true
+		}
+	}
+	var vs []*ssa.Function
+	for v := range validators {
+		vs = append(vs, v)
+	}
+	sort.Slice(vs, func(i, j int) bool { return c.Name(vs[i]) < c.Name(vs[j]) })
+	for _, v := range vs {
+		var missing []string
+		for _, k := range sortedKeys(all) {
+			if !kinds[v][k] {
+				missing = append(missing, k)
+			}
+		}
+		r.Check(len(missing) == 0, rule, c.Name(v)+"#rejects-what-its-siblings-reject", c.Pos(v.Pos()), "tests "+strings.Join(sortedKeys(kinds[v]), ", ")+map[bool]string{true: "", false: "; missing: " + strings.Join(missing, ", ") + " (a path with an empty last component is stored as an empty name, and the next name in that group is listed twice)"}[len(missing) == 0])
+	}
+	n := 0
+	for _, e := range entries {
+		if !exportedEntry(e.fn) {
+			continue
+		}
+		n++
+		// an exported function that is only a thin front of another validated one is fine when it validated itself; otherwise
+		// every path to parsePath must have passed a validator
+		r.Check(e.ok, rule, c.Name(e.fn)+"#path-validated-before-parsePath", c.InstrPos(e.site), "the path parameter passes a validate* function on every path to parsePath")
+	}
+	if len(vs) < 2 || n < 4 {
+		r.Shortfall(c, rule, fmt.Sprintf("%s: %d path validators, %d exported functions that parse a path parameter", rule, len(vs), n))
+	}
+}
+
+func init() {
+	registry["C03"].Meta.Rules["C03.14"] = "every creation call validates its path, and the validators agree: each exported function of the root package that hands a parameter to parsePath has run a validate* function on it on every path, and every such validator makes all the tests any of them makes (empty path, leading slash, the root itself, consecutive slashes) - a path with an empty last component ('//', or '/' for a dataset) would be stored as an empty name whose heap offset the next name reuses, so that the reopened group lists that name twice"
+	registry["C03"].Rules = append(registry["C03"].Rules, func(c *Ctx, r *Result) { pathValidationRule(c, r, "C03.14") })
+}
